@@ -1,6 +1,6 @@
 """C13 — dispatch_data objects behave as immutable byte strings."""
-import subprocess
-from common import run_lines
+import os, re, subprocess
+from common import run_lines, sh
 
 META = {
     "text": "Lean theorems over a model of the representation of data.c (leaves, composites of range records, the special cases of create_concat / "
@@ -14,7 +14,7 @@ META = {
 }
 
 THEOREMS = ["C13.concat_is_append", "C13.subrange_is_clamped_slice", "C13.size_is_length", "C13.apply_tiles_in_order", "C13.apply_early_stop",
-            "C13.copy_region_contains", "C13.wf_closed"]
+            "C13.copy_region_contains", "C13.wf_closed", "C13.destructor_once_and_not_early", "C13.all_released_all_destroyed"]
 
 
 def gen_lines(r, n):
@@ -125,6 +125,34 @@ def run(ctx):
                 ctx.violation("dispatch_data lifetime (%s build): %s" % (variant, what), {"cmd": [hb, str(seed), str(rounds)], "stdout": p.stdout, "stderr": p.stderr[-1500:]},
                               signature="rc:" + str(what)[:40])
         ctx.count("oracle destructors " + variant, runs * rounds, runs * rounds, samples=[{"cmd": "c13_rc %d %d" % (ctx.seed * 100, rounds)}])
+
+
+    # reference counting: the operations of the harness replayed through DataRc.step, the destructors the library ran compared with the model's
+    try:
+        hb = ctx.harness("c13_rc")
+        paths = []
+        for s in range(3 if ctx.thorough else 2):
+            path = os.path.join(ctx.outdir, "rc-%d.txt" % s)
+            with open(path, "w") as f:
+                rcode = subprocess.run([hb, str(ctx.seed * 100 + 50 + s), str(300 if ctx.thorough else 60), "2"], stdout=f, stderr=subprocess.DEVNULL, timeout=600).returncode
+            if rcode != 0:
+                ctx.violation("dispatch_data lifetime (logged run): " + open(path).readline().strip()[:200], {"cmd": [hb, str(ctx.seed * 100 + 50 + s), "60", "2"]}, signature="rc:logged")
+            paths.append(path)
+        if drv:
+            r = sh([drv, "datarc"] + paths)
+            m = re.search(r"explained-by-DataRc.step (\d+)", r.stdout); ex = int(m.group(1)) if m else 0
+            ctx.cov["layers"].setdefault("L-trace data reference counts", {})["replay"] = r.stdout.strip().splitlines()[0][:300] if r.stdout.strip() else ""
+            ctx.count("L-trace data reference counts", ex, ex, samples=[{"cmd": "c13_rc %d 60 2 | dvdriver datarc" % (ctx.seed * 100 + 50)}])
+            if r.returncode != 0:
+                for b in r.stdout.splitlines()[1:4]:
+                    # a destructor that ran early / twice / never is the property's own failure; the log line is the replay
+                    ctx.violation("dispatch_data reference counting: " + b[:300], {"cmd": [hb, str(ctx.seed * 100 + 50), "60", "2"], "detail": b}, signature="rc:replay:" + re.sub(r"\d+", "N", b.split(": ", 1)[-1])[:50])
+        if not ctx.violations:
+            for p_ in paths:
+                try: os.remove(p_)
+                except OSError: pass
+    except Exception as e:
+        ctx.cov["layers"]["L-trace data reference counts"] = {"skipped": str(e)[:200]}
 
 
 def replay(ctx, obj):
